@@ -31,7 +31,7 @@ REPLAYS = os.environ.get("VERIF_REPLAYS", os.path.join(VERIF, "replays"))
 KNOWN = os.path.join(VERIF, "known_findings.txt")
 REPO = os.environ.get("VERIF_REPO", "/repo")  # a scratch worktree may be checked instead (seeded-change trials)
 
-MEM_BUDGET_GB = int(os.environ.get("VERIF_MEM_GB", "54"))
+MEM_BUDGET_GB = int(os.environ.get("VERIF_MEM_GB", "80"))  # sum of per-harness ulimit caps admitted at once (caps are ~2x the measured peak RSS; 62 GB RAM)
 MAX_JOBS = int(os.environ.get("VERIF_JOBS", "10"))
 SLOT_PREFIX = os.environ.get("VERIF_SLOT_PREFIX", "s")  # separate target dirs for side-by-side runs
 
@@ -164,7 +164,10 @@ def snapshot(tag):
 def prepare():
     os.makedirs(LOGS, exist_ok=True)
     os.makedirs(TARGET, exist_ok=True)
-    shutil.copyfile(os.path.join(REPO, "Cargo.lock"), os.path.join(HARNESS, "Cargo.lock"))
+    lock = os.path.join(REPO, "Cargo.lock")
+    if not os.path.exists(lock):
+        lock = "/repo/Cargo.lock"  # scratch worktrees do not carry the (untracked) lock file
+    shutil.copyfile(lock, os.path.join(HARNESS, "Cargo.lock"))
     gen = os.path.join(VERIF, "tools", "gen_harness.py")
     if os.path.exists(gen):
         r = sh([sys.executable, gen], stdout=subprocess.PIPE, stderr=subprocess.STDOUT, text=True)
@@ -441,8 +444,8 @@ def is_known(job, c, known):
 # replay: solver assignment -> native test against the real build
 # ----------------------------------------------------------------------------
 
-def replay_scratch():
-    d = os.path.join(LOGS, "replay_crate")
+def replay_scratch(tag=""):
+    d = os.path.join(LOGS, "replay_crate" + tag)
     if os.path.exists(d):
         shutil.rmtree(d)
     shutil.copytree(CRATE, d, ignore=shutil.ignore_patterns("target"))
@@ -450,26 +453,33 @@ def replay_scratch():
 
 
 def extract_playback_test(log_text):
-    m = re.search(r"```\s*\n(.*?)```", log_text, re.S)
-    if m and "kani_concrete_playback" in m.group(1):
-        return m.group(1)
-    m = re.search(r"(#\[test\]\s*\n\s*fn kani_concrete_playback_\w+\(\)\s*\{.*?\n\}\n)", log_text, re.S)
-    return m.group(1) if m else None
+    """All generated tests that belong to a failed check (tests for satisfied covers are skipped)."""
+    tests = []
+    for m in re.finditer(r"```\s*\n(.*?)```", log_text, re.S):
+        block = m.group(1)
+        if "kani_concrete_playback" not in block:
+            continue
+        kind = re.search(r"Check for `(\w+)`", block)
+        if kind and kind.group(1) == "cover":
+            continue
+        tests.append(block)
+    return "\n".join(tests) if tests else None
 
 
-def run_native_test(crate_dir, modname, test_src, log_path):
+def run_native_test(crate_dir, modname, test_src, log_path, lane=0):
     """Append the generated #[test] to the harness's module in a scratch copy and run it
     natively with `cargo kani playback` (dev profile, then release)."""
     modfile = os.path.join(crate_dir, "src", modname + ".rs")
     with open(modfile, "a") as f:
         f.write("\n" + test_src + "\n")
-    m = re.search(r"fn (kani_concrete_playback_\w+)", test_src)
-    tname = m.group(1)
+    names = re.findall(r"fn (kani_concrete_playback_\w+)", test_src)
+    # common prefix = cargo test filter that selects every generated test of this harness
+    tname = os.path.commonprefix(names) if names else "kani_concrete_playback"
     results = {}
     for prof in ("dev", "release"):
         cmd = ["cargo", "kani", "playback", "-Z", "concrete-playback", "--", tname]
         e = env()
-        e["CARGO_TARGET_DIR"] = os.path.join(TARGET, "playback-" + prof + ("" if SLOT_PREFIX == "s" else "-" + SLOT_PREFIX))
+        e["CARGO_TARGET_DIR"] = os.path.join(TARGET, "playback-" + prof + ("" if SLOT_PREFIX == "s" else "-" + SLOT_PREFIX) + ("" if lane == 0 else "-%d" % lane))
         e["RUST_BACKTRACE"] = "0"
         if prof == "release":
             # `cargo kani playback` has no --release: give the test profile release settings
@@ -485,6 +495,7 @@ def run_native_test(crate_dir, modname, test_src, log_path):
             r = subprocess.run(cmd, cwd=crate_dir, env=e, stdout=lf, stderr=subprocess.STDOUT, timeout=3600)
         txt = open(log_path, errors="replace").read()
         tail = txt[txt.rfind("# native replay (%s)" % prof):]
+        results[prof + "_output"] = tail[-20000:]
         if re.search(r"test result: FAILED|panicked at|test .* FAILED", tail):
             results[prof] = "fails"
         elif re.search(r"test result: ok\. [1-9]\d* passed", tail):
@@ -494,27 +505,14 @@ def run_native_test(crate_dir, modname, test_src, log_path):
     return tname, results
 
 
-def replay_job(job):
+def replay_job(job, lane=0):
     """Returns (path, reproduced: bool|None)."""
     h = job.h
     os.makedirs(os.path.join(REPLAYS, job.prop), exist_ok=True)
     path = os.path.join(REPLAYS, job.prop, h["name"] + ".rs")
     rlog = os.path.join(LOGS, job.prop, h["name"] + ".replay.log")
-    if h["twin"]:
-        # oracle lives in a stub: the hand-written native twin is the replay target
-        crate = replay_scratch()
-        e = env()
-        e["CARGO_TARGET_DIR"] = os.path.join(TARGET, "playback-dev" + ("" if SLOT_PREFIX == "s" else "-" + SLOT_PREFIX))
-        with open(rlog, "w") as lf:
-            r = subprocess.run(["cargo", "kani", "playback", "-Z", "concrete-playback", "--", h["twin"]],
-                               cwd=crate, env=e, stdout=lf, stderr=subprocess.STDOUT)
-        txt = open(rlog, errors="replace").read()
-        with open(path, "w") as f:
-            f.write("// native twin `%s` of harness %s (see %s)\n" % (h["twin"], h["qual"], os.path.relpath(h["file"], VERIF)))
-        shutil.rmtree(crate, ignore_errors=True)
-        return path, bool(re.search(r"test result: FAILED|panicked at", txt))
-    crate = replay_scratch()
-    cmd = kani_cmd(h, SLOT_PREFIX + "0", None, playback=True)
+    crate = replay_scratch("_%d" % lane)
+    cmd = kani_cmd(h, "%s%d" % (SLOT_PREFIX, lane), None, playback=True)
     shell = "ulimit -s unlimited 2>/dev/null; ulimit -v %d; exec timeout -k 15 %d %s" % (
         h["mem"] * 1024 * 1024, h["timeout"], " ".join(map(shquote, cmd)))
     with open(rlog, "w") as lf:
@@ -523,17 +521,29 @@ def replay_job(job):
     if not test:
         shutil.rmtree(crate, ignore_errors=True)
         return path, None
+    if h["twin"]:
+        # the harness's oracle lives in a stub, which a native run does not have: feed the same
+        # solver-chosen values to the hand-written native twin (same kani::any() sequence, real code)
+        test = re.sub(r",\s*%s\);" % re.escape(h["name"]), ", %s);" % h["twin"], test)
     with open(path, "w") as f:
         f.write("// counterexample for harness %s (property %s), produced by CBMC from /repo at %s\n" % (h["qual"], job.prop, repo_state()))
         f.write("// failing checks: %s\n" % "; ".join(sorted({c.get("description", "") for c in job.fail_checks})))
         f.write("// module: %s\n" % h["mod"])
         f.write(test)
-    tname, res = run_native_test(crate, h["mod"], test, rlog)
+    tname, res = run_native_test(crate, h["mod"], test, rlog, lane)
     shutil.rmtree(crate, ignore_errors=True)
-    job.replay_result = res
+    job.replay_result = {k: v for k, v in res.items() if not k.endswith("_output")}
     if "fails" in res.values():
-        return path, True
-    if all(v == "passes" for v in res.values()):
+        if h["twin"]:
+            return path, True
+        # the native failure has to be the failure CBMC reported, not some other panic
+        out = res.get("dev_output", "") + res.get("release_output", "")
+        for c in job.fail_checks:
+            d = c.get("description", "")
+            if c.get("category") != "assertion" or (d and d[:60] in out):
+                return path, True
+        return path, False
+    if all(v == "passes" for k, v in res.items() if not k.endswith("_output")):
         return path, False
     return path, None
 
@@ -547,11 +557,13 @@ def replay_file(path):
     prepare()
     snapshot("replay")
     crate = replay_scratch()
-    test = txt[txt.find("#[test]"):]
+    i = txt.find("/// Test generated")
+    test = txt[i if i >= 0 else txt.find("#[test]"):]
     rlog = os.path.join(LOGS, "replay_cmd.log")
     open(rlog, "w").close()
     tname, res = run_native_test(crate, m.group(1), test, rlog)
     shutil.rmtree(crate, ignore_errors=True)
+    res = {k: v for k, v in res.items() if not k.endswith("_output")}
     print("replay %s: %s" % (tname, res))
     print(open(rlog, errors="replace").read()[-3000:])
     if "fails" in res.values():
@@ -702,6 +714,7 @@ def main():
     run_all(jobs, seed)
     known = load_known()
     violations, inconclusive, known_hits = 0, 0, []
+    to_replay = []
     for j in jobs:
         if j.status == "pass":
             continue
@@ -721,22 +734,47 @@ def main():
             j.fail_checks = unknown
             for c in unknown[:8]:
                 loc = c.get("location", {})
-                print("  failing check in %s: %s  [%s:%s in %s]" % (j.h["name"], c.get("description"), loc.get("file"), loc.get("line"), c.get("function")))
-            path, reproduced = replay_job(j)
-            if reproduced:
-                violations += 1
-                print("VIOLATION property=%s replay=%s" % (a.prop, path))
-            else:
-                inconclusive += 1
-                print("INCONCLUSIVE: counterexample of %s %s natively (log: %s)" % (
-                    j.h["name"], "did not reproduce" if reproduced is False else "could not be replayed",
-                    os.path.join(LOGS, a.prop, j.h["name"] + ".replay.log")))
+                print("  failing check in %s: %s  [%s:%s in %s]" % (j.h["name"], c.get("description"), loc.get("file"), loc.get("line"), c.get("function")), flush=True)
+            to_replay.append(j)
         else:
             inconclusive += 1
             extra = ""
             if j.status == "vacuous":
                 extra = " unsatisfied witnesses: " + "; ".join(str(c.get("description")) for c in j.cover_bad)
             print("INCONCLUSIVE: harness %s ended as %s (log: %s)%s" % (j.h["name"], j.status, j.log, extra))
+    # native replays, up to four side by side (each lane has its own scratch crate and target dirs)
+    LANES = 4
+    results = {}
+    lane_lock = threading.Lock()
+    free_lanes = list(range(LANES))
+    def replay_worker(j):
+        with lane_lock:
+            lane = free_lanes.pop(0)
+        try:
+            results[j] = replay_job(j, lane)
+        except Exception as e:  # pragma: no cover
+            results[j] = (None, None)
+        with lane_lock:
+            free_lanes.append(lane)
+    sem = threading.Semaphore(LANES)
+    threads = []
+    for j in to_replay:
+        sem.acquire()
+        t = threading.Thread(target=lambda jj=j: (replay_worker(jj), sem.release()), daemon=True)
+        t.start()
+        threads.append(t)
+    for t in threads:
+        t.join()
+    for j in to_replay:
+        path, reproduced = results.get(j, (None, None))
+        if reproduced:
+            violations += 1
+            print("VIOLATION property=%s replay=%s" % (a.prop, path))
+        else:
+            inconclusive += 1
+            print("INCONCLUSIVE: counterexample of %s %s natively (log: %s)" % (
+                j.h["name"], "did not reproduce" if reproduced is False else "could not be replayed",
+                os.path.join(LOGS, a.prop, j.h["name"] + ".replay.log")))
     wall = time.time() - t0
     if not a.no_evidence and not a.only:
         write_evidence(a.prop, tier, seed, jobs, wall, violations, known_hits, GLOBAL_ASSUMPTIONS)
